@@ -64,8 +64,11 @@ func (v *Voting[_, _]) outcomeIndex(numRequiredVotes int) (int, bool) {
 	for _, vote := range v.Votes {
 		numVotes[vote]++
 	}
-	for index, votes := range numVotes {
-		if votes >= numRequiredVotes {
+	// Iterate over the candidates in the order they were first voted for. Ranging over the
+	// numVotes map would make the outcome depend on map iteration order whenever more than one
+	// candidate has reached numRequiredVotes, which lets replicas diverge.
+	for index := range v.Candidates {
+		if numVotes[index] >= numRequiredVotes {
 			return index, true
 		}
 	}
